@@ -24,6 +24,7 @@ THEOREMS = [
     ("EG.props.C01", "C01_rawpath_irrelevant"),
     ("EG.props.C01", "C01_xff_option_irrelevant_for_routing"),
     ("EG.props.C01", "C01_forwarded_for"),
+    ("EG.props.C01", "C01_reserved_prefix_exact"),
 ]
 HARNESSES = [
     dict(name="route", pkg="pkg/object/httpserver", files=["harness/httpserver/zz_verif_c01_test.go"],
@@ -121,7 +122,7 @@ def enc_reqs(i):
     for rq, ro in zip(i.get("reqs") or [], i["oracle"].get("reqs") or []):
         out.append(Rec(rq_host=S(rq["host"]), rq_method=S(rq["method"]), rq_path=S(rq["path"]),
                        rq_rawpath=S(rq.get("rawpath") or ""), rq_headers=L([T(S(k), S(v)) for k, v in ro.get("hdr") or []]), rq_ip=S(ro["realip"]),
-                       rq_body=Z(rq.get("body") or 0)))
+                       rq_body=Z(rq.get("body") or 0), rq_sni=S(rq.get("sni") or "")))
     return L(out)
 
 
